@@ -21,6 +21,9 @@ type Opts struct {
 	SimpleStrings bool
 	// BigMaps biases env / config maps beyond 8 entries.
 	BigMaps bool
+	// NilDims: a named dimension's value list may be nil (a dimension declared without values, as a
+	// struct-built step has it) instead of empty.
+	NilDims bool
 }
 
 type G struct {
@@ -228,6 +231,9 @@ func (g *G) Matrix() *pipeline.Matrix {
 	nd := g.intn("ndims", 1, 3)
 	for i := 0; i < nd; i++ {
 		m.Setup[DimNames[i]] = g.strList("mv", 0, 3)
+		if g.O.NilDims && len(m.Setup[DimNames[i]]) == 0 && g.intn("nildim", 0, 1) == 0 {
+			m.Setup[DimNames[i]] = nil
+		}
 	}
 	if g.intn("mixedanon", 0, 2) == 0 {
 		// the anonymous dimension written explicitly next to named ones
